@@ -1,4 +1,4 @@
-From EC Require Import Base.Prelude Base.Bytes Base.BytesProofs Pdu.Frame Pdu.Slots Pdu.SlotsProofs
+From EC Require Import Base.Prelude Base.Bytes Base.BytesProofs Pdu.Frame Pdu.Slots Pdu.View Pdu.Hist Pdu.SlotsProofs
   Pdu.Client Pdu.ClientProofs Pdu.Own2.
 Local Open Scope N_scope.
 
